@@ -366,7 +366,7 @@ fn decompressed_len(body: &[u8]) -> u64 {
 
 fn gen_repeated(ctx: &GenCtx) -> Vec<Value> {
     let n = if ctx.tier == Tier::Thorough { 100_000 } else { 30_000 };
-    ["marker", "padding", "signature", "userid", "trust", "ops"].iter().map(|k| json!({"kind": k, "n": n})).collect()
+    ["marker", "padding", "signature", "userid", "trust", "ops", "ops_msg"].iter().map(|k| json!({"kind": k, "n": n})).collect()
 }
 
 fn one_packet(kind: &str) -> Vec<u8> {
@@ -393,8 +393,41 @@ fn one_packet(kind: &str) -> Vec<u8> {
 fn run_repeated(plan: &Value, rec: &mut Rec) {
     let kind = jstr(plan, "kind");
     let n = jusize(plan, "n");
-    let unit = one_packet(kind);
+    // "ops_msg": a legal message  count x one-pass signature, literal, count x signature  (one real signer, repeated)
+    let signed_parts: Option<(Vec<u8>, Vec<u8>, Vec<u8>)> = if kind == "ops_msg" {
+        let cfg = json!({"source":"bytes","file_name":"","compression":"none","signers":[{"key":"ed25519-v4","hash":"sha256"}],"enc":{"k":"none"},"rng_key":1});
+        workload::build_reference(&cfg, b"many signers", 1, false).0.ok().and_then(|m| {
+            let pk = deframe(&m).ok()?;
+            if pk.len() != 3 {
+                return None;
+            }
+            Some((m[pk[0].start..pk[0].end].to_vec(), m[pk[1].start..pk[1].end].to_vec(), m[pk[2].start..pk[2].end].to_vec()))
+        })
+    } else {
+        None
+    };
+    if kind == "ops_msg" && signed_parts.is_none() {
+        rec.count("skip:ops-msg-build");
+        return;
+    }
+    let unit = if kind == "ops_msg" { Vec::new() } else { one_packet(kind) };
     let mk = |count: usize| -> Arc<Vec<u8>> {
+        if let Some((ops, lit, sig)) = &signed_parts {
+            let mut v = Vec::with_capacity((ops.len() + sig.len()) * count + lit.len());
+            for i in 0..count {
+                let at = v.len();
+                v.extend_from_slice(ops);
+                // the "nested" octet (last of the packet): 0 = another one-pass signature follows
+                let last = v.len() - 1;
+                v[last] = if i + 1 == count { 1 } else { 0 };
+                let _ = at;
+            }
+            v.extend_from_slice(lit);
+            for _ in 0..count {
+                v.extend_from_slice(sig);
+            }
+            return Arc::new(v);
+        }
         let mut v = Vec::with_capacity(unit.len() * count);
         for _ in 0..count {
             v.extend_from_slice(&unit);
@@ -408,27 +441,38 @@ fn run_repeated(plan: &Value, rec: &mut Rec) {
     rec.eval(h.0, true);
     rec.eval(h.0 ^ 1, true);
     rec.sample(json!({"kind": kind, "packets": n, "bytes": full.len()}));
-    let run = |b: &Arc<Vec<u8>>| {
-        measured_with(2 * A, 0, || {
-            let (input, _l) = seams::sim_bufread(b.clone(), Sched::Full, 8192, vec![]);
-            let mut count = 0usize;
-            for p in PacketParser::new(input) {
-                drop(p);
-                count += 1;
+    let parse = |b: &Arc<Vec<u8>>| -> usize {
+        let (input, _l) = seams::sim_bufread(b.clone(), Sched::Full, 8192, vec![]);
+        let mut count = 0usize;
+        for p in PacketParser::new(input) {
+            drop(p);
+            count += 1;
+        }
+        // message-level: leading markers / trailing padding are skipped by the message parser; a signed
+        // message is read to its end (that is where the trailing signature packets are taken in)
+        let (input, _l) = seams::sim_bufread(b.clone(), Sched::Full, 8192, vec![]);
+        if let Ok(mut m) = Message::from_bytes(input) {
+            let mut buf = [0u8; 4096];
+            while let Ok(k) = m.read(&mut buf) {
+                if k == 0 {
+                    break;
+                }
             }
-            // message-level: leading markers / trailing padding are skipped by the message parser
-            let (input, _l) = seams::sim_bufread(b.clone(), Sched::Full, 8192, vec![]);
-            let _ = Message::from_bytes(input);
-            let (input, _l) = seams::sim_bufread(b.clone(), Sched::Full, 8192, vec![]);
-            let _ = SignedPublicKey::from_bytes(input);
-            count
-        })
+        }
+        let (input, _l) = seams::sim_bufread(b.clone(), Sched::Full, 8192, vec![]);
+        let _ = SignedPublicKey::from_bytes(input);
+        count
     };
+    // absolute factor: parsed signatures are ~16 x their wire size (2A with margin); a signer slot of a
+    // one-pass signed message (one-pass packet + signature + running hasher) measures ~32 x its 130 wire
+    // octets on the pinned tree - a constant factor, so 4A there; linearity itself is judged by doubling
+    let factor = if kind == "ops_msg" { 4 * A } else { 2 * A };
+    let run = |b: &Arc<Vec<u8>>| measured_with(factor, 0, || parse(b));
     let mf = run(&full);
     let mh = run(&half);
     // parsed signature values are an order of magnitude larger than their wire form; what matters here is
     // proportionality: absolute factor 2*A, and doubling the input may at most double the peak
-    judge(rec, plan, plan.clone(), &format!("repeated:{kind}"), &format!("{n} repeated {kind} packets"), 2 * full.len() as u64, 0, &mf);
+    judge(rec, plan, plan.clone(), &format!("repeated:{kind}"), &format!("{n} repeated {kind} packets"), (factor / A) * full.len() as u64, 0, &mf);
     if mf.acct.peak > 2 * mh.acct.peak + mh.acct.peak / 2 + C_BASE {
         rec.violation(
             "memory-not-bounded-by-input",
@@ -445,6 +489,30 @@ fn run_repeated(plan: &Value, rec: &mut Rec) {
             format!("{n} packets allocate {} bytes in total, {} packets allocate {} (more than 2.5x for 2x input)", mf.acct.cumulative, n / 2, mh.acct.cumulative),
             plan.clone(),
         );
+    }
+    // time: thread CPU time, consulted only when large in absolute terms (>= 0.15 s for at most a few MB of
+    // packets), and then judged by scaling: a quarter of the packets must cost clearly more than a
+    // sixteenth of the time (linear would be a quarter)
+    let c0 = thread_cpu_seconds();
+    let _ = guard(|| parse(&full));
+    let t_full = thread_cpu_seconds() - c0;
+    if std::env::var("VERIF_DEBUG").is_ok() {
+        eprintln!("DEBUG repeated kind={kind} n={n} cpu={t_full:.3}s");
+    }
+    if t_full >= 0.15 {
+        let quarter = mk(n / 4);
+        let c1 = thread_cpu_seconds();
+        let _ = guard(|| parse(&quarter));
+        let t_quarter = (thread_cpu_seconds() - c1).max(1e-4);
+        rec.count("probe:time-scaling-evaluated");
+        if t_full > 10.0 * t_quarter {
+            rec.violation(
+                "time-not-linear",
+                &format!("repeated:{kind}"),
+                format!("{n} repeated {kind} packets cost {t_full:.2} s of CPU, {} packets {t_quarter:.3} s (x{:.1} for x4 input: super-linear)", n / 4, t_full / t_quarter),
+                plan.clone(),
+            );
+        }
     }
 }
 
@@ -667,8 +735,22 @@ fn build_from<R: Read, W: Write>(cfg: &Value, src: R, rng: &mut SimRng, sink: W)
 fn gen_stream_read(ctx: &GenCtx) -> Vec<Value> {
     let mut p = Planner::new(ctx.seed, "c19.stream_read", 0);
     let (n, size) = if ctx.tier == Tier::Thorough { (40, 64usize << 20) } else { (24, 8usize << 20) };
-    stream_cfgs(&mut p, n).into_iter().map(|c| json!({"cfg": c, "size": size, "src_sched": p.sched().to_json(), "cap": *p.pick(&[512usize, 8192, 65536]), "mode": *p.pick(&["streaming", "checkfirst-limit"])})).collect()
+    let mut plans: Vec<Value> = Vec::new();
+    // every order of the option setters x both SEIPDv1 read modes, on one plain SEIPDv1 configuration
+    for order in OPT_ORDERS {
+        for mode in ["streaming", "checkfirst-limit"] {
+            let cfg = json!({"source":"reader","file_name":"big.bin","data_mode":"binary","partial": 8192, "compression":"none","sign_text": false, "signers": [],
+                             "enc": {"k":"v1","sym":"aes128"}, "recipients": [], "passwords": [], "armor": false, "rng_key": p.u64()});
+            plans.push(json!({"cfg": cfg, "size": 4usize << 20, "src_sched": {"k":"full"}, "cap": 8192, "mode": mode, "opt_order": order}));
+        }
+    }
+    plans.extend(stream_cfgs(&mut p, n).into_iter().map(|c| json!({"cfg": c, "size": size, "src_sched": p.sched().to_json(), "cap": *p.pick(&[512usize, 8192, 65536]), "mode": *p.pick(&["streaming", "checkfirst-limit"]),
+        // the order in which the caller sets the decryption options must not matter
+        "opt_order": *p.pick(&OPT_ORDERS)})));
+    plans
 }
+
+const OPT_ORDERS: [&str; 6] = ["mode-only", "mode-then-gnupg", "gnupg-then-mode", "mode-then-legacy", "legacy-then-mode", "mode-then-gnupg-then-legacy"];
 
 fn run_stream_read(plan: &Value, rec: &mut Rec) {
     let cfg = &plan["cfg"];
@@ -700,7 +782,16 @@ fn run_stream_read(plan: &Value, rec: &mut Rec) {
         let m = if m.is_encrypted() {
             let pw = pgp::types::Password::from("pw");
             let mode = if limit_mode { pgp::types::Seipdv1ReadMode::CheckFirst { max_message_size: limit } } else { pgp::types::Seipdv1ReadMode::Streaming };
-            let ring = pgp::composed::TheRing { message_password: vec![&pw], decrypt_options: pgp::composed::DecryptionOptions::new().set_seipdv1_read_mode(mode), ..Default::default() };
+            let o = pgp::composed::DecryptionOptions::new();
+            let options = match jstr(plan, "opt_order") {
+                "mode-then-gnupg" => o.set_seipdv1_read_mode(mode).enable_gnupg_aead(),
+                "gnupg-then-mode" => o.enable_gnupg_aead().set_seipdv1_read_mode(mode),
+                "mode-then-legacy" => o.set_seipdv1_read_mode(mode).enable_legacy(),
+                "legacy-then-mode" => o.enable_legacy().set_seipdv1_read_mode(mode),
+                "mode-then-gnupg-then-legacy" => o.set_seipdv1_read_mode(mode).enable_gnupg_aead().enable_legacy(),
+                _ => o.set_seipdv1_read_mode(mode),
+            };
+            let ring = pgp::composed::TheRing { message_password: vec![&pw], decrypt_options: options, ..Default::default() };
             match m.decrypt_the_ring(ring, true) {
                 Ok((m, _)) => m,
                 Err(_) => return (0, "decrypt-err"),
